@@ -143,6 +143,8 @@ def run(ctx: Context) -> None:
                 rep.ob("C18.R2", f"prim|{base}.{sname}", len(_sig(mf)) == 1, s.where,
                        f"{base} has no __init__; Async{base}.__init__ parameters {_sig(mf)}")
                 continue
+            if sf is None and mname.startswith("_") and not mname.startswith("__"):
+                continue        # a private helper of one twin is not part of the surface the two must share
             if sf is None:
                 rep.ob("C18.R2", f"prim|{base}.{sname}", False, s.where, f"sync twin {base} lacks method {sname} that Async{base} offers")
                 continue
